@@ -36,6 +36,10 @@ def route(run_props, o):
         return [p.strip() for p in m.group(1).split(',')]
     if o['kind'] == 'safety' and 'model capacity' not in (o['desc'] or ''):
         return ['C20'] if 'C20' in run_props else []
+    if o['kind'] == 'assertion' and re.match(r'(std::|vector<)', o['desc'] or ''):
+        # preconditions of standard library operations stated by the value models (operator[] index, erase/substr position, pop_back on empty):
+        # violating one is undefined behaviour or an uncaught exception, so it counts for C20 as well as for the functional property
+        return list(run_props)
     if o['kind'] == 'callee_pre':
         # a call that violates the callee's precondition also leaves the callee's safety proof (made under that precondition) without cover
         return list(run_props)
